@@ -22,8 +22,8 @@ func init() {
 		Technique: "wire-integer hygiene and guard/dominance rules on go/ssa (relational reading of branch conditions), error-discipline path queries, table agreement with RFC 7541 Appendix A/B",
 		Meta: core.Meta{
 			Level:       "other",
-			Explanation: "Decides structural necessary conditions of RFC 7541 decoding in bfe_http2/hpack: (1) readVarInt: every cycle through the accumulator shift passes a bound test that keeps the shift amount <= 56 and whose failing branch returns a fatal (non-errNeedMore) error; 7-bit payload mask, continuation bit 0x80, step 7; exhausted input yields errNeedMore; the prefix ends the integer only when strictly below 2^N-1. (2) Decoder.at answers ok only under 1 <= i <= len(static)+len(dynamic), the two index expressions are i-1 and len(ents)-(i-61) as affine forms and are guarded, and both callers use the entry only under ok and return a DecodingError otherwise. (3) the dynamic table size update reaches setMaxSize only under size <= allowedMaxSize; census of setMaxSize callers and of the writers of maxSize/allowedMaxSize. (4) the representation dispatch (bit patterns, prefix lengths, index type) agrees with RFC 7541 section 6. (5) every readVarInt/readString/huffmanDecode error is tested before any decoder state is changed, d.buf is advanced only after the last read and on every success path, no read follows a state change (incremental re-parse is idempotent). (6) readString slices only under strLen <= len(p), enforces maxStrLen, reports errNeedMore on truncation; Decoder.Write saves the unparsed rest on errNeedMore and Close reports truncated blocks. (7) huffmanDecode: every child-node dereference is guarded by a nil test (an encoded EOS is an error, not a panic), the in-loop output is bounded by maxLen, and after the byte loop an error return must depend on the residual bit count (padding > 7 bits) and on the residual bits (padding not all ones). (8) the static table and the Huffman code/length tables equal RFC 7541 Appendix A/B and the code is prefix-free and complete with EOS. (9) dynamic-table entry size is len(name)+len(value)+32 and add/setMaxSize evict. Not covered: equality with a reference decoder on all inputs (only the clauses above), the correctness of the Huffman tree construction, eviction arithmetic over histories, general panic-freedom (only constant-index/slice bounds in the wire readers and the nil dereferences in huffmanDecode are decided), the size-update-only-at-block-start rule of RFC 7541 section 4.2.",
-			RuleText:    "obligations = each accumulator shift, each success/truncation return of readVarInt, each ok-return and table index expression of Decoder.at, each Decoder.at call site, each setMaxSize call and table-size field writer, each row of the representation dispatch, each read call of the parse functions (error tested before effects), each consumption store and success return, each wire-length slice in readString, each need-more return of Write, each child lookup and the two tail clauses of huffmanDecode, the three RFC tables",
+			Explanation: "Decides structural necessary conditions of RFC 7541 decoding in bfe_http2/hpack: (1) readVarInt: every cycle through the accumulator shift passes a bound test that keeps the shift amount <= 56 and whose failing branch returns a fatal (non-errNeedMore) error; 7-bit payload mask, continuation bit 0x80, step 7; exhausted input yields errNeedMore; the prefix ends the integer only when strictly below 2^N-1. (2) Decoder.at answers ok only under 1 <= i <= len(static)+len(dynamic), the two index expressions are i-1 and len(ents)-(i-61) as affine forms and are guarded, and both callers use the entry only under ok and return a DecodingError otherwise. (3) the dynamic table size update reaches setMaxSize only under size <= allowedMaxSize; census of setMaxSize callers and of the writers of maxSize/allowedMaxSize; an integer read from the wire (readVarInt result, also when passed on as a parameter inside the package) is converted to a narrower integer type only under a guard that bounds the full-width value by something fitting that type, so limit/index/length tests are never made on truncated values. (4) the representation dispatch (bit patterns, prefix lengths, index type) agrees with RFC 7541 section 6. (5) every readVarInt/readString/huffmanDecode error is tested before any decoder state is changed, d.buf is advanced only after the last read and on every success path, no read follows a state change (incremental re-parse is idempotent). (6) readString slices only under strLen <= len(p), enforces maxStrLen, reports errNeedMore on truncation; Decoder.Write saves the unparsed rest on errNeedMore and Close reports truncated blocks. (7) huffmanDecode: every child-node dereference is guarded by a nil test (an encoded EOS is an error, not a panic), the in-loop output is bounded by maxLen, and after the byte loop an error return must depend on the residual bit count (padding > 7 bits) and on the residual bits (padding not all ones). (8) the static table and the Huffman code/length tables equal RFC 7541 Appendix A/B and the code is prefix-free and complete with EOS. (9) dynamic-table entry size is len(name)+len(value)+32 and add/setMaxSize evict. Not covered: equality with a reference decoder on all inputs (only the clauses above), the correctness of the Huffman tree construction, eviction arithmetic over histories, general panic-freedom (only constant-index/slice bounds in the wire readers and the nil dereferences in huffmanDecode are decided), the size-update-only-at-block-start rule of RFC 7541 section 4.2; value changes of wire integers other than truncating conversions (masking, same-width sign reinterpretation such as uint64->int on 64-bit targets).",
+			RuleText:    "obligations = each accumulator shift, each success/truncation return of readVarInt, each ok-return and table index expression of Decoder.at, each Decoder.at call site, each setMaxSize call and table-size field writer, each truncating conversion of a wire integer, each row of the representation dispatch, each read call of the parse functions (error tested before effects), each consumption store and success return, each wire-length slice in readString, each need-more return of Write, each child lookup and the two tail clauses of huffmanDecode, the three RFC tables",
 			Assumptions: []string{"package-level error variables (errNeedMore, ErrInvalidHuffman, ErrStringLength, errVarintOverflow) are initialised non-nil and never reassigned", "bytes.Buffer and append behave as documented"},
 		},
 		Run: runC31,
@@ -42,6 +42,10 @@ func init() {
 			{Name: "static-table-entry-changed", File: "bfe_http2/hpack/tables.go", Old: "	pair(\":status\", \"304\"),", New: "	pair(\":status\", \"302\"),", Expect: "rfc-table|static-table"},
 			{Name: "huffman-length-changed", File: "bfe_http2/hpack/tables.go", Old: "var huffmanCodeLen = [256]uint8{\n	13,", New: "var huffmanCodeLen = [256]uint8{\n	14,", Expect: "rfc-table|huffman"},
 			{Name: "need-more-rest-dropped", File: "bfe_http2/hpack/hpack.go", Old: "			d.saveBuf.Write(d.buf)\n			return len(p), nil", New: "			return len(p), nil", Expect: "write-incremental|"},
+			{Name: "string-limit-on-truncated-length", File: "bfe_http2/hpack/hpack.go", Old: "	if d.maxStrLen != 0 && strLen > uint64(d.maxStrLen) {", New: "	if d.maxStrLen != 0 && int32(strLen) > int32(d.maxStrLen) {", Expect: "wire-narrowing|bfe_http2/hpack.Decoder.readString"},
+			{Name: "index-range-on-truncated-index", File: "bfe_http2/hpack/hpack.go", Old: "	if i > uint64(d.maxTableIndex()) {", New: "	if uint32(i) > uint32(d.maxTableIndex()) {", Expect: "wire-narrowing|bfe_http2/hpack.Decoder.at"},
+			{Name: "size-update-compared-after-truncation", File: "bfe_http2/hpack/hpack.go", Old: "	if size > uint64(d.dynTab.allowedMaxSize) {\n		return DecodingError{errors.New(\"dynamic table size update too large\")}\n	}\n	d.dynTab.setMaxSize(uint32(size))", New: "	newSize := uint32(size)\n	if newSize > d.dynTab.allowedMaxSize {\n		return DecodingError{errors.New(\"dynamic table size update too large\")}\n	}\n	d.dynTab.setMaxSize(newSize)", Expect: "wire-narrowing|bfe_http2/hpack.Decoder.parseDynamicTableSizeUpdate"},
+			{Name: "silent-narrow-after-check-skip-unchanged", File: "bfe_http2/hpack/hpack.go", Old: "	d.dynTab.setMaxSize(uint32(size))\n", New: "	if newSize := uint32(size); newSize != d.dynTab.maxSize {\n		d.dynTab.setMaxSize(newSize)\n	}\n", Silent: true},
 			{Name: "silent-rename-and-log", File: "bfe_http2/hpack/hpack.go", Old: "	size, buf, err := readVarInt(5, buf)\n	if err != nil {\n		return err\n	}\n	if size > uint64(d.dynTab.allowedMaxSize) {\n		return DecodingError{errors.New(\"dynamic table size update too large\")}\n	}\n	d.dynTab.setMaxSize(uint32(size))", New: "	newSize, buf, err := readVarInt(5, buf)\n	if err != nil {\n		return err\n	}\n	limit := uint64(d.dynTab.allowedMaxSize)\n	if limit < newSize {\n		return DecodingError{errors.New(\"dynamic table size update too large\")}\n	}\n	d.dynTab.setMaxSize(uint32(newSize))", Silent: true},
 			{Name: "silent-at-rewritten", File: "bfe_http2/hpack/hpack.go", Old: "	if i < 1 {\n		return\n	}\n	if i > uint64(d.maxTableIndex()) {\n		return\n	}", New: "	if i == 0 || uint64(d.maxTableIndex()) < i {\n		return\n	}", Silent: true},
 		},
@@ -58,6 +62,7 @@ func runC31(c *core.Ctx) {
 	c31VarInt(c)
 	c31Index(c)
 	c31SizeUpdate(c)
+	c31Narrowing(c)
 	c31Dispatch(c)
 	c31Reads(c)
 	c31String(c)
@@ -1640,4 +1645,183 @@ var hxHuffLens = [256]uint8{
 	19, 21, 26, 27, 27, 26, 27, 24, 21, 21, 26, 26, 28, 27, 27, 27,
 	20, 24, 20, 21, 22, 21, 21, 23, 22, 22, 25, 25, 24, 24, 26, 23,
 	26, 27, 26, 26, 27, 27, 27, 27, 27, 28, 27, 27, 27, 27, 27, 26,
+}
+
+// ---------------------------------------------------------------- narrowing of wire integers
+
+var c31Sizes = types.SizesFor("gc", "amd64")
+
+// c31IntInfo: bit width and signedness of an integer type.
+func c31IntInfo(t types.Type) (bits int64, unsigned, ok bool) {
+	b, isB := t.Underlying().(*types.Basic)
+	if !isB || b.Info()&types.IsInteger == 0 {
+		return 0, false, false
+	}
+	return c31Sizes.Sizeof(b) * 8, b.Info()&types.IsUnsigned != 0, true
+}
+
+// c31Widen peels value-preserving steps only: type changes, integer
+// conversions to a type of at least the same width (never a truncation), and
+// loads of single-assignment locals. Unlike hxResolve it stops at a
+// truncating conversion: uint32(x) is not x.
+func c31Widen(v ssa.Value) ssa.Value {
+	for i := 0; i < 12; i++ {
+		switch x := v.(type) {
+		case *ssa.ChangeType:
+			v = x.X
+			continue
+		case *ssa.Convert:
+			fb, _, ok1 := c31IntInfo(x.X.Type())
+			tb, _, ok2 := c31IntInfo(x.Type())
+			if ok1 && ok2 && tb >= fb {
+				v = x.X
+				continue
+			}
+		case *ssa.UnOp:
+			if a, ok := x.X.(*ssa.Alloc); ok && x.Op == token.MUL {
+				if p := core.SpilledParam(a); p != nil {
+					return p
+				}
+				var last ssa.Value
+				for _, in := range x.Block().Instrs {
+					if in == ssa.Instruction(x) {
+						break
+					}
+					if st, ok := in.(*ssa.Store); ok && st.Addr == ssa.Value(a) {
+						last = st.Val
+					}
+				}
+				if last == nil {
+					last = hxDominatingStore(a, x)
+				}
+				if last != nil {
+					v = last
+					continue
+				}
+			}
+		}
+		break
+	}
+	return v
+}
+
+// c31Narrowing: an integer decoded from the wire (result #0 of readVarInt, and
+// every parameter of a package function that receives such a value) may be
+// converted to a narrower integer type only where the guards already bound
+// the un-narrowed value by something that fits the target type. Otherwise the
+// high bits are dropped before the limit/index/length test that follows and
+// the test decides about a different number than the one the peer sent (RFC
+// 7541 sections 5.1, 6.3: an integer above the limit is a decoding error,
+// whatever its low bits are).
+func c31Narrowing(c *core.Ctx) {
+	fns := c.P.SrcFuncs(hxHpack)
+	wire := map[ssa.Value]bool{}
+	for _, f := range fns {
+		for _, in := range hxInstrs(f) {
+			if call := hxIsCallTo(in, hxHpack+".readVarInt"); call != nil {
+				if e := hxExtract(call, 0); e != nil {
+					wire[e] = true
+				}
+			}
+		}
+	}
+	if len(wire) == 0 {
+		c.Missing(hxHpack + ".readVarInt: no call whose integer result is used")
+		return
+	}
+	// one level of context per call edge, to a fixpoint: parameters fed with wire integers
+	for changed := true; changed; {
+		changed = false
+		for _, f := range fns {
+			for _, in := range hxInstrs(f) {
+				ci, ok := in.(ssa.CallInstruction)
+				if !ok {
+					continue
+				}
+				callee := ci.Common().StaticCallee()
+				if callee == nil || callee.Blocks == nil || core.FuncPkgRel(callee) != hxHpack {
+					continue
+				}
+				for i, a := range ci.Common().Args {
+					if i < len(callee.Params) && wire[c31Widen(a)] && !wire[callee.Params[i]] {
+						if _, _, isInt := c31IntInfo(callee.Params[i].Type()); isInt {
+							wire[callee.Params[i]] = true
+							changed = true
+						}
+					}
+				}
+			}
+		}
+	}
+	for _, f := range fns {
+		k := 0
+		for _, in := range hxInstrs(f) {
+			cv, ok := in.(*ssa.Convert)
+			if !ok {
+				continue
+			}
+			fb, _, ok1 := c31IntInfo(cv.X.Type())
+			tb, tUns, ok2 := c31IntInfo(cv.Type())
+			if !ok1 || !ok2 || tb >= fb {
+				continue
+			}
+			x := c31Widen(cv.X)
+			if !wire[x] {
+				continue
+			}
+			// largest value of the target type
+			maxBits := tb
+			if !tUns {
+				maxBits--
+			}
+			fits := func(b ssa.Value, strict bool) bool {
+				if kc, isK := core.StripConv(b).(*ssa.Const); isK && kc.Value != nil && kc.Value.Kind() == constant.Int {
+					lim := new(big.Int).Lsh(big.NewInt(1), uint(maxBits)) // 2^maxBits
+					kv, okv := new(big.Int).SetString(kc.Value.ExactString(), 10)
+					if !okv || kv.Sign() < 0 {
+						return false
+					}
+					if strict {
+						return kv.Cmp(lim) <= 0
+					}
+					return kv.Cmp(lim) < 0
+				}
+				w := c31Widen(b)
+				wb, wUns, okw := c31IntInfo(w.Type())
+				if !okw || !wUns {
+					return false // a negative bound converted to unsigned is huge
+				}
+				if tUns {
+					return wb <= tb
+				}
+				return wb < tb
+			}
+			bounded := false
+			var rels []hxRel
+			for _, g := range core.GuardsAt(cv.Block()) {
+				r, ok := hxRelOf(g.Cond, g.Pol)
+				if !ok {
+					continue
+				}
+				rels = append(rels, r)
+				l, rr, op := r.L, r.R, r.Op
+				if c31Widen(rr) == x && c31Widen(l) != x {
+					l, rr, op = rr, l, hxFlipOp(op)
+				}
+				if c31Widen(l) != x {
+					continue
+				}
+				switch op {
+				case token.LSS:
+					bounded = bounded || fits(rr, true)
+				case token.LEQ, token.EQL:
+					bounded = bounded || fits(rr, false)
+				}
+			}
+			c.Check("wire-narrowing", fmt.Sprintf("%s:%s->%s#%d", core.FuncKey(f), core.TypeStr(cv.X.Type()), core.TypeStr(cv.Type()), k), cv.Pos(), bounded,
+				"the wire integer "+core.Render(x)+" is truncated to "+core.TypeStr(cv.Type())+" where no guard bounds the full-width value by something that fits that type; tests made on the truncated value accept integers whose low bits look valid (e.g. 2^32+r) instead of rejecting them; guards: "+hxRelStrs(rels))
+			k++
+		}
+	}
+	c.Min("wire-narrowing", 1)
 }
